@@ -34,7 +34,20 @@ def make_Q(rng, kind, n):
         return rng.normal(size=(n, r)) @ rng.normal(size=(r, n))
     if kind == 'total_row':
         return np.ones((1, n))
+    if kind == 'hier':
+        return hierarchical(n)
     raise ValueError(kind)
+
+
+def hierarchical(n):
+    """Square, singular for n >= 2, and its row space contains the total query: the total, one cell, the rest, then
+    single cells (the counts a hierarchical workload asks for)."""
+    if n == 1:
+        return np.ones((1, 1))
+    if n == 2:
+        return np.ones((2, 2))
+    rows = [np.ones(n), np.eye(n)[0], np.ones(n) - np.eye(n)[0]] + [np.eye(n)[i] for i in range(2, n - 1)]
+    return np.array(rows, dtype=float)
 
 
 def spell(Q, how):
